@@ -93,7 +93,31 @@ def _ac_primitive(result=0):
     return p
 
 
-def build(state: int, event: int, role: str, pv: int, variant: str = ""):
+class Clock:
+    """Stands in for the `time` module inside pynetdicom.timer while one pair is observed."""
+
+    def __init__(self):
+        self.t = 5000.0
+
+    def time(self):
+        return self.t + 1.7e9
+
+    def monotonic(self):
+        return self.t
+
+    def perf_counter(self):
+        return self.t
+
+    def sleep(self, d):
+        self.t += d
+
+
+# (a timer that has already expired stays expired whatever is done to it, so that history discriminates nothing)
+ARTIM_PRIORS = ("unstarted", "running", "stopped")
+WILL_FIRE = {"unstarted": False, "running": True, "stopped": False}
+
+
+def build(state: int, event: int, role: str, pv: int, variant: str = "", artim_prior: str = "unstarted", clock=None):
     """Returns (assoc, log, recorder dict) prepared for do_action('Evt<event>')
     in state 'Sta<state>'."""
     from pynetdicom import evt
@@ -121,7 +145,8 @@ def build(state: int, event: int, role: str, pv: int, variant: str = ""):
 
     class RecTimer(Timer):
         def start(s):
-            log.append(("artim", "start"))
+            if not getattr(s, "_in_restart", False):
+                log.append(("artim", "start"))
             super().start()
 
         def stop(s):
@@ -130,9 +155,21 @@ def build(state: int, event: int, role: str, pv: int, variant: str = ""):
 
         def restart(s):
             log.append(("artim", "restart"))
-            Timer.start(s)
+            s._in_restart = True  # the real restart() may be implemented through start()
+            try:
+                super().restart()
+            finally:
+                s._in_restart = False
 
     dul.artim_timer = RecTimer(30)
+    # the history of the ARTIM timer before this pair (real Timer operations on the fake clock)
+    if artim_prior in ("running", "stopped", "expired"):
+        Timer.start(dul.artim_timer)
+    if artim_prior == "stopped":
+        clock.t += 1.0
+        Timer.stop(dul.artim_timer)
+    if artim_prior == "expired":
+        clock.t += 31.0
     assoc.requestor.address_info = AddressInformation("127.0.0.1", 40000)
     assoc.acceptor.address_info = AddressInformation("127.0.0.1", 11112)
     assoc.dimse.receive_primitive = lambda prim: log.append(("dimse", type(prim).__name__))
@@ -205,20 +242,30 @@ def build(state: int, event: int, role: str, pv: int, variant: str = ""):
 PDU_NAMES = {1: "A-ASSOCIATE-RQ", 2: "A-ASSOCIATE-AC", 3: "A-ASSOCIATE-RJ", 4: "P-DATA-TF", 5: "A-RELEASE-RQ", 6: "A-RELEASE-RP", 7: "A-ABORT"}
 
 
-def observe(state, event, role, pv, variant=""):
+def observe(state, event, role, pv, variant="", artim_prior="unstarted"):
     """Run one pair on the real code; return observation dict."""
+    import pynetdicom.timer as tmod
     from pynetdicom.fsm import InvalidEventError
     from pynetdicom.pdu_primitives import A_ABORT, A_ASSOCIATE, A_P_ABORT, A_RELEASE
 
-    assoc, log, fsm_log = build(state, event, role, pv, variant)
-    dul = assoc.dul
-    obs = {"raised": None}
+    clock = Clock()
+    old_time = tmod.time
+    tmod.time = clock
     try:
-        dul.state_machine.do_action(f"Evt{event}")
-    except InvalidEventError:
-        obs["raised"] = "InvalidEventError"
-    except Exception as exc:  # noqa
-        obs["raised"] = f"{type(exc).__name__}: {exc}"
+        assoc, log, fsm_log = build(state, event, role, pv, variant, artim_prior, clock)
+        dul = assoc.dul
+        obs = {"raised": None}
+        try:
+            dul.state_machine.do_action(f"Evt{event}")
+        except InvalidEventError:
+            obs["raised"] = "InvalidEventError"
+        except Exception as exc:  # noqa
+            obs["raised"] = f"{type(exc).__name__}: {exc}"
+        # what the action did to ARTIM is judged by what the timer then does: will it expire?
+        clock.t += 31.0
+        obs["artim_will_fire"] = bool(dul.artim_timer.expired)
+    finally:
+        tmod.time = old_time
     obs["next"] = int(dul.state_machine.current_state[3:])
     sent = [x[1] for x in log if x[0] == "send"]
     obs["pdus"] = []
@@ -329,6 +376,10 @@ def compare(state, role, ev, pv_ok, model, obs, variant=""):
     want_artim = {"none": [], "start": ["start"], "stop": ["stop"], "stopstart": ["stop", "start"]}[fx["artim"]]
     if got_artim != want_artim:
         bad.append(f"{action}: ARTIM operations {obs['artim']}, PS3.8 says {want_artim}")
+    prior = obs.get("artim_prior", "unstarted")
+    want_fire = {"none": WILL_FIRE[prior], "start": True, "stop": False, "stopstart": True}[fx["artim"]]
+    if obs["artim_will_fire"] != want_fire:
+        bad.append(f"{action}: ARTIM state after the action with the timer {prior} before: {'will expire' if obs['artim_will_fire'] else 'will never expire'}, PS3.8 ({fx['artim']}) says it {'must be running' if want_fire else 'must not be running'}")
     # transport
     if fx["tr"] == "connect":
         if obs["connect"] != 1 or obs["closed"]:
@@ -396,7 +447,8 @@ def run(ctx: core.Ctx) -> core.Result:
             if 1 not in seen:
                 raise RuntimeError(f"model sanity: Sta1 not reachable from Sta{s0} as {role}")
 
-    n_cases = n_edges = n_non = 0
+    n_cases = n_edges = n_non = n_obs = 0
+    vkeys = set()
     samples = []
     keys_seen = set()
     for state in range(1, 14):
@@ -420,12 +472,18 @@ def run(ctx: core.Ctx) -> core.Result:
                     if ev == 16 and model:
                         variants = ["", "provider"]
                     for variant in variants:
-                        obs = observe(state, ev, role, 0x0001 if pv_ok else 0x0002, variant)
-                        bad = compare(state, role, ev, pv_ok, model, obs, variant)
-                        keys_seen.add((state, ev, model[1] if model else None))
-                        for b in bad:
-                            act = model[1] if model else "none"
-                            viol.append(core.Violation(f"Sta{state}-Evt{ev}-{act}-{role if act in ('AR-8',) else 'any'}{'-' + variant if variant else ''}:{b.split(':')[0][:40]}", f"Sta{state} + Evt{ev} ({role}, pv {'ok' if pv_ok else 'bad'}{', ' + variant if variant else ''}): {b}", {"state": state, "event": ev, "role": role, "pv_ok": pv_ok, "variant": variant}))
+                        for prior in ARTIM_PRIORS if model else ("unstarted",):
+                            n_obs += 1
+                            obs = observe(state, ev, role, 0x0001 if pv_ok else 0x0002, variant, prior)
+                            obs["artim_prior"] = prior
+                            bad = compare(state, role, ev, pv_ok, model, obs, variant)
+                            keys_seen.add((state, ev, model[1] if model else None))
+                            for b in bad:
+                                act = model[1] if model else "none"
+                                k = f"Sta{state}-Evt{ev}-{act}-{role if act in ('AR-8',) else 'any'}{'-' + variant if variant else ''}:{b.split(':')[0][:40]}" + (f":artim-{prior}" if "ARTIM state after" in b else "")
+                                if k not in vkeys:
+                                    vkeys.add(k)
+                                    viol.append(core.Violation(k, f"Sta{state} + Evt{ev} ({role}, pv {'ok' if pv_ok else 'bad'}{', ' + variant if variant else ''}): {b}", {"state": state, "event": ev, "role": role, "pv_ok": pv_ok, "variant": variant, "artim_prior": prior}))
                     if (state, ev) in ((2, 6), (7, 12), (6, 13), (1, 3)) and role == "acceptor":
                         samples.append({"state": state, "event": ev, "role": role, "pv_ok": pv_ok, "model": model, "observed": {k: obs[k] for k in ("raised", "next", "pdus", "inds", "artim", "closed")}})
     # extra: protocol version with bit 0 set plus other bits must be accepted (PS3.8 9.3.2)
@@ -442,6 +500,8 @@ def run(ctx: core.Ctx) -> core.Result:
         "model_states_sanity_run": st_san["distinct"],
         "model_edges_distinct": len(edges),
         "edges_replayed": n_edges,
+        "observations_on_real_code": n_obs,
+        "artim_histories_per_edge": list(ARTIM_PRIORS),
         "non_edges_replayed": n_non,
         "table_cells_defined_in_model": len({(s, e) for (s, r, e) in exp}),
         "exhaustive": True,
@@ -455,13 +515,13 @@ def run(ctx: core.Ctx) -> core.Result:
         assumptions=[
             "models/PS38.tla is a faithful transcription of PS3.8 Tables 9-6..9-10 (DESIGN.md A.3)",
             "AA-4/AA-5/AR-5 (transport already closed by the peer): a local socket shutdown is allowed, not required",
-            "Timer.restart == Timer.start",
+            "the effect of an action on ARTIM is judged by whether the real Timer subsequently expires, from three timer histories (never started, running, stopped)",
             "reason/diagnostic fields the standard leaves open are not constrained",
         ],
     )
 
 
 def replay(ctx, data):
-    obs = observe(data["state"], data["event"], data["role"], data.get("pv", 1 if data.get("pv_ok", True) else 2), data.get("variant", ""))
+    obs = observe(data["state"], data["event"], data["role"], data.get("pv", 1 if data.get("pv_ok", True) else 2), data.get("variant", ""), data.get("artim_prior", "unstarted"))
     print(obs)
     return 0
